@@ -733,7 +733,7 @@ pub fn run(part: &mut Part) {
             // payload: losing one full middle frame leaves a buffer that still parses
             alpha.push(Op::Append { q: QA, pos: Pos::Auto, sizes: vec![Sz::N((3 * BLOCK) as u32), Sz::N((BLOCK - 19) as u32)] });
             alpha.push(Op::Append { q: QB, pos: Pos::Auto, sizes: vec![Sz::N((2 * BLOCK + 5) as u32), Sz::N((BLOCK - 19) as u32), Sz::S3] });
-            let mut seeds = vec![seed_empty(), seed_ab(), seed_two_files(), seed_recreated(), seed_recreated_from_zero(), seed_recreated_after_emptied(), seed_gc_ready()];
+            let mut seeds = vec![seed_empty(), seed_ab(), seed_two_files(), seed_recreated(), seed_recreated_from_zero(), seed_gc_ready()];
             seeds.extend(cursor_seeds(&[0, 1], &[0, 7, 8]));
             let seeds = thin(seeds, 2, q);
             let profiles = vec![prof("seeds x (A_write + frame-shaped payload)", seeds, alpha, if TINY { if q { 1 } else { 2 } } else { 1 }), light_seeds_prof(vec![Op::app(QA, Pos::Auto, Sz::S3), Op::app(QA, Pos::Auto, Sz::Emb), Op::app(QB, Pos::Auto, Sz::L), Op::Trunc { q: QA, at: Tr::Last }], 1, q)];
